@@ -1,6 +1,6 @@
 """C14 count-min: one cell-addressing function shared by update and queries, index shape, min reduction, bounds,
 merge guards and linearity, configuration guard not defeated by 32-bit wrap-around."""
-from astu import strip, strip_all, walk, walkp, txt, short, is_this_field, field_name, stmts_of, always_throws, functions_by, local_decls
+from astu import C, ctxt, gt_pair, eq_const, strip, strip_all, walk, walkp, txt, short, is_this_field, field_name, stmts_of, always_throws, functions_by, local_decls
 from vlib.core import ob
 
 REC = "datasketches::count_min_sketch"
@@ -68,7 +68,7 @@ def addressing(facts):
                 writes = []
                 walkp(fn["body"], lambda n, ps: writes.append((n, [p.get("k") for p in ps])) if n.get("k") == "Assign" and "_sketch_array" in txt(n["l"]) else None)
                 lin = all(n.get("op") == "+=" and txt(n["r"]) == "weight" and not any(k in ("If", "Cond", "While", "Do", "Switch") for k in ks) for n, ks in writes)
-                ok = body == ["(_sketch_array[h]+=weight)"] and len(loops) == 1 and len(writes) == 1 and lin and any(t.startswith("(_total_weight+=((weight>=0)?weight:-weight))") for t in tot)
+                ok = body == ["(_sketch_array[h]+=weight)"] and len(loops) == 1 and len(writes) == 1 and lin and any(t.startswith("(_total_weight+=(" + C("(weight>=0)") + "?weight:-weight))") for t in tot)
                 if not lin:
                     body = ["cell written by %s under %s" % (txt(n), [k for k in ks if k in ("If", "Cond", "While", "Do", "Switch")]) for n, ks in writes]
                 out.append(ob("cm.update", key, fn["pat"], "discharged" if ok else "violated", "each addressed cell += weight exactly once; total += |weight|" if ok else "update body is %s / %s: every addressed cell must receive `+= weight` exactly once and the total `+= |weight|`" % (body, tot), fn["qname"]))
